@@ -394,6 +394,34 @@ def main():
         raise ValueError("unrecognised ActiveObject.subscribe")
     g.attempt("ps.subscribeShape", True, subscribe_when_running)
 
+    # ---- instrumentation ------------------------------------------------------
+    HQ = find_class(hsm, "HsmWithQueues")
+
+    def live_trace_by_id():
+        fn = find_func(find_func(HQ, "print_trace_after_rtc_if_live"), "_print_trace_if_live")
+        src = unparse(fn)
+        if "tr is not getattr(self, 'last_live_trace_record', None)" in src and "self.last_live_trace_record = tr" in src:
+            return True
+        if "tr.datetime != self.last_live_trace_datetime" in src:
+            return False
+        raise ValueError("unrecognised live-trace novelty test")
+    g.attempt("liveTraceById", True, live_trace_by_id)
+
+    def spy_on_shape():
+        fn = find_func(find_func(hsm, "spy_on"), "_spy_on")
+        src = unparse(fn)
+        need = ["chart.rtc.spy.append('{}:{}'.format(e.signal_name, name))", "status = fn(chart, e)",
+                "chart.rtc.spy.append('{}:{}:HOOK'.format(e.signal_name, name))", "status is return_status.HANDLED",
+                "signals.is_inner_signal(e.signal_name) is not True", "chart.rtc.tuples.append(sr)"]
+        missing = [n for n in need if n not in src]
+        if missing:
+            raise ValueError("spy_on wrapper changed: missing %s" % missing[:2])
+        # order: line, call, hook
+        if not (src.index(need[0]) < src.index(need[1]) < src.index(need[2])):
+            raise ValueError("spy_on wrapper: order of spy line / handler call / HOOK line changed")
+        return True
+    g.attempt("spyOnShape", True, spy_on_shape)
+
     # ---- emit -------------------------------------------------------------
     v = g.values
     def b(x):
@@ -423,6 +451,8 @@ def main():
                      v["fab.feOrder"], v["fab.lifoDeliver"], b(v["fab.startKeepsHandles"]), b(v["fab.clearInPlace"]),
                      b(v["fab.subscribeKeepsOthers"])))
     lines.append("def fifoDeliverPlain : Bool := " + b(v["fab.fifoDeliverPlain"]))
+    lines.append("def liveTraceById : Bool := " + b(v["liveTraceById"]))
+    lines.append("def spyOnShape : Bool := " + b(v["spyOnShape"]))
     lines.append("def psTags : Miros.Conc.PS.Tags := { wrapperAlwaysCalls := %s, subscribedAsksOwnQueue := %s }" % (
         b(v["ps.wrapperAlwaysCalls"]), b(v["ps.subscribedAsksOwnQueue"])))
     lines.append("def aoTags : Miros.Conc.AO.Tags := { checkBeforeStart := %s, cancelEq := %s, cancelLocked := %s }" % (
